@@ -411,18 +411,37 @@ Definition ex_conf (nt : Z) : cred :=
 Definition ex_cc (v : Z) : ccache :=
   let nt := if v =? 1 then 0 else 1 in
   if v =? 4
-  then mkCC 4 22 [mkHF 1 8 [0;0;0;1;0;0;0;2]; mkHF 7 2 [9;9]] (ex_princ nt) [ex_cred nt; ex_conf nt]
+  then mkCC 4 18 [mkHF 1 8 [0;0;0;1;0;0;0;2]; mkHF 7 2 [9;9]] (ex_princ nt) [ex_cred nt; ex_conf nt]
   else mkCC v 0 [] (ex_princ nt) [ex_cred nt; ex_conf nt].
 
 Ltac wf_tac :=
-  unfold wf_cc, wf_princ, wf_cred, wf_hfield, wf_tagged, wf_data; cbn;
-  repeat (match goal with
-          | |- _ /\ _ => split
-          | |- Forall _ [] => constructor
-          | |- Forall _ (_ :: _) => constructor
-          | |- _ -> _ => intros ?
-          end; cbn);
-  try lia; try discriminate; try reflexivity.
+  unfold ex_cc, ex_cred, ex_conf, ex_princ, wf_cc; cbn [Z.eqb Pos.eqb];
+  unfold wf_cred, wf_princ, wf_hfield, wf_tagged, wf_data;
+  cbn [cc_version cc_hlen cc_hfields cc_princ cc_creds cp_ntype cp_realm cp_comps
+       c_client c_server c_ktype c_key c_auth c_start c_end c_renew c_skey c_flags c_addrs c_authdata
+       c_ticket c_ticket2 hf_tag hf_len hf_val fst snd];
+  repeat match goal with
+         | |- _ /\ _ => split
+         | |- Forall _ [] => constructor
+         | |- Forall _ (_ :: _) => constructor
+         | |- (_ = _) -> _ => intros ?
+         | |- (_ <> _) -> _ => intros ?
+         end;
+  unfold wf_cred, wf_princ, wf_hfield, wf_tagged, wf_data;
+  cbn [cp_ntype cp_realm cp_comps
+       c_client c_server c_ktype c_key c_auth c_start c_end c_renew c_skey c_flags c_addrs c_authdata
+       c_ticket c_ticket2 hf_tag hf_len hf_val fst snd];
+  repeat match goal with
+         | |- _ /\ _ => split
+         | |- Forall _ [] => constructor
+         | |- Forall _ (_ :: _) => constructor
+         | |- (_ = _) -> _ => intros ?
+         | |- (_ <> _) -> _ => intros ?
+         end;
+  cbn [fst snd];
+  try discriminate; try lia; try (unfold zlen; cbn [length]; lia);
+  try match goal with |- _ = _ => vm_compute; reflexivity end;
+  try congruence.
 
 Example grammar_example :
   (wf_cc (ex_cc 1) /\ wf_cc (ex_cc 2) /\ wf_cc (ex_cc 3) /\ wf_cc (ex_cc 4)) /\
